@@ -16,6 +16,8 @@ UNITS = ['msgpack_readers.cpp', 'w_archives.cpp']
 
 
 def run(prog, rep):
+    from rules import keycmp
+    keycmp.check(prog, rep, 'R7.6')      # a map key stored in either integer family is found by a request of either signedness
     M.check_accept_tables(prog, rep)
     M.check_bytecode_table(prog, rep)
     M.check_ext_offsets(prog, rep)
